@@ -979,6 +979,22 @@ def group_validation(out, tier):
                              new(U, "u", 1.0, 2.0, 3.0, 4.0), new(U, "u", 1.0, 2.0, None, 1.0, 1.0, nonsense=1)])
 
 
+def group_rejected_calls(out, tier):
+    """A setter call that BOTH layers reject (a negative number where a count is expected: the binding refuses to
+    convert it, the Rust API cannot even be handed one) leaves the options object as it was: what was configured
+    before is still there, for repr() and for a tracker built from the object afterwards."""
+    counts = ["max_idle_epochs", "kept_history_length", "visual_minimal_track_length",
+              "visual_max_observations"]
+    for bad in counts:
+        steps = [new(OPT, "o"), call(OPT, "o", "max_idle_epochs", 3), call(OPT, "o", "kept_history_length", 4),
+                 call(OPT, "o", "visual_minimal_area", 2.5), call(OPT, "o", "positional_min_confidence", 0.2),
+                 call(OPT, "o", bad, -1), repr_(OPT, "o"),
+                 call(OPT, "o", "visual_max_observations", 5), repr_(OPT, "o"),
+                 new("VisualSort", "t", 1, R("o")), call("VisualSort", "t", "current_epoch"),
+                 call("VisualSort", "t", "shard_stats")]
+        out.add("h-rejected", steps, variant=f"{bad}(-1)")
+
+
 def generate(tier):
     out = Out()
     group_a(out, tier)
@@ -988,6 +1004,7 @@ def generate(tier):
     group_e(out, tier)
     group_f(out, tier)
     group_defaults(out, tier)
+    group_rejected_calls(out, tier)
     # Out-of-domain arguments (negative counts, thresholds outside (0,1), n = 0 ...) are NOT part of the
     # enumeration: the Python layer validates its signed / untyped arguments differently from the Rust
     # builders on purpose, and C18 speaks about the values returned for the same *valid* inputs. The probes
